@@ -161,7 +161,7 @@ Definition scan_float (s : list ascii) : option (list ascii) :=
 
 (* ---- the continuations of FLOAT_RE, innermost first ---- *)
 Definition K0 : list ascii -> option (list ascii) := fun rest => Some rest.
-Definition RE_EXP : re := RSeq (RCls is_e) (RSeq (ROpt (RCls is_sign)) (RPlus is_digit)).
+Definition RE_EXP : regex := RSeq (RCls is_e) (RSeq (ROpt (RCls is_sign)) (RPlus is_digit)).
 Definition kD (s : list ascii) : option (list ascii) := rmatch (ROpt RE_EXP) s K0.
 Definition kC (s : list ascii) : option (list ascii) := rmatch (RPlus is_digit) s kD.
 Definition kB (s : list ascii) : option (list ascii) := rmatch (ROpt (RCls is_dot)) s kC.
